@@ -368,6 +368,28 @@ func c20RunHistory(sp c20Spec) (out c20Outcome) {
 		out.Expected, out.Observed = canon(before), canon(mid)
 		return
 	}
+	// what v1 declares exists on the table CreateTable produced
+	{
+		w1 := c20WantOf(sp.Table, sp.V1, nil)
+		cls := map[string]string{}
+		for _, f := range sp.V1 {
+			cls[c20ColName(f.Name, f.Tag)] = c20Class(f.Kind)
+		}
+		// (the behavioural probes need two rows: histories with fewer rows are not judged here)
+		if v, e, o := "", "", ""; sp.Rows >= 2 {
+			v, e, o = c20JudgeStructure(db, rec, sp.Table, w1, true, cls)
+			if v != "" {
+				out.Stage, out.Verdict, out.Expected, out.Observed = "v1-exists", v, e, o
+				out.Master = c20Master(db, rec)
+				return
+			}
+		}
+		if v, e, o := c20JudgeAsk(db, m1, w1, true); v != "" {
+			out.Stage, out.Verdict, out.Expected, out.Observed = "v1-exists", v, e, o
+			out.Master = c20Master(db, rec)
+			return
+		}
+	}
 	// --- (B) migrate(v2)
 	rec.Reset()
 	err = db.AutoMigrate(m2)
@@ -434,10 +456,94 @@ func c20RunHistory(sp c20Spec) (out c20Outcome) {
 			return
 		}
 	}
-	// observation only: a third run (AutoMigrate(v2) again)
+	// --- (C) what v2 declares EXISTS (c20_exist.go): structure + behaviour + gorm's own Has* answers
+	oldNames := map[string]bool{}
+	for _, f := range sp.V1 {
+		oldNames[f.Name] = true
+	}
+	want := c20WantOf(sp.Table, sp.V2, oldNames)
+	{ // latitude: an index NAME that v1 already declared with other members is a CHANGED index, not an added one:
+		// AutoMigrate looks indexes up by name and leaves it alone; the property only speaks about additions.
+		w1 := c20WantOf(sp.Table, sp.V1, nil)
+		var keep []c20WantIdx
+		for _, wi := range want.Idx {
+			changed := false
+			for _, o := range w1.Idx {
+				if wi.Name != "" && o.Name == wi.Name && (!c20SameCols(o.Cols, wi.Cols, false) || o.Unique != wi.Unique) {
+					changed = true
+				}
+			}
+			if !changed {
+				keep = append(keep, wi)
+			}
+		}
+		want.Idx = keep
+	}
+	classOf := map[string]string{}
+	for _, f := range sp.V2 {
+		classOf[c20ColName(f.Name, f.Tag)] = c20Class(f.Kind)
+	}
+	fail := func(stage, v, e, o string) c20Outcome {
+		out.Stage, out.Verdict, out.Expected, out.Observed = stage, v, e, o
+		out.Master = c20Master(db, rec)
+		return out
+	}
+	if v, e, o := c20JudgeStructure(db, rec, sp.Table, want, false, classOf); v != "" {
+		return fail("v2-exists", v, e, o)
+	}
+	if v, e, o := c20JudgeAsk(db, m2, want, false); v != "" {
+		return fail("v2-exists", v, e, o)
+	}
+	// added columns with a declared non-NULL default: the existing rows carry a value (ADD COLUMN used the full definition)
+	for _, wc := range want.Cols {
+		if wc.Added && wc.HasDefault {
+			var n int64
+			c20Quiet(rec, func() {
+				db.Session(&gorm.Session{NewDB: true}).Raw("SELECT count(*) FROM `" + sp.Table + "` WHERE `" + wc.Col + "` IS NULL").Row().Scan(&n)
+			})
+			if n > 0 {
+				return fail("v2-exists", "added column "+wc.Col+" declares a default but existing rows hold NULL", "0 NULL cells", fmt.Sprint(n))
+			}
+		}
+	}
+	// --- (D) a further AutoMigrate(v2): may still add the late `unique` of a new field; afterwards everything exists
+	allCols := append([]string(nil), st2.Schema.DBNames...)
+	var mig []string
+	for _, c := range allCols {
+		if f := st2.Schema.FieldsByDBName[c]; f != nil && !f.IgnoreMigration {
+			mig = append(mig, c)
+		}
+	}
+	beforeSettle, _ := c20Dump(db, rec, sp.Table, mig)
 	rec.Reset()
-	_ = db.AutoMigrate(m2)
+	err = db.AutoMigrate(m2)
 	out.Third = c20SchemaStmts(rec.Snapshot())
+	if err != nil {
+		out.Err = err.Error()
+		return fail("settle", "a further AutoMigrate(v2) returned an error", "", err.Error())
+	}
+	afterSettle, _ := c20Dump(db, rec, sp.Table, mig)
+	if canon(beforeSettle) != canon(afterSettle) {
+		return fail("settle", "rows changed across a further AutoMigrate(v2)", canon(beforeSettle), canon(afterSettle))
+	}
+	if v, e, o := c20JudgeStructure(db, rec, sp.Table, want, true, classOf); v != "" {
+		return fail("settle", v+" (even after a further AutoMigrate)", e, o)
+	}
+	if v, e, o := c20JudgeAsk(db, m2, want, true); v != "" {
+		return fail("settle", v+" (even after a further AutoMigrate)", e, o)
+	}
+	// --- (E) the database now matches v2: one more AutoMigrate(v2) must be silent
+	rec.Reset()
+	err = db.AutoMigrate(m2)
+	out.Second = c20SchemaStmts(rec.Snapshot())
+	if err != nil {
+		out.Err = err.Error()
+		return fail("third", "AutoMigrate(v2) on the database two earlier runs produced returned an error", "", err.Error())
+	}
+	if len(out.Second) > 0 {
+		return fail("third", "AutoMigrate(v2) still issues schema-changing statements after two earlier AutoMigrate(v2) runs", "no CREATE/ALTER/DROP", strings.Join(out.Second, " ;; "))
+	}
+	out.Second = nil
 	out.Stage = "ok"
 	return
 }
